@@ -511,13 +511,14 @@ def main(argv=None):
 
 def setup_all():
   """MANIFEST.setup_cmd: run the translators, then a full .vo build of Base and of every property
-  that has a harness module (directories still under construction are built by their own check)."""
+  registered in tools/claims.json (directories still under construction are built by their own check)."""
   setup_impl_path()
   sys.path.insert(0, os.path.join(ROOT, "harness"))
   dirs = ["Base"]
-  for p in sorted(glob.glob(os.path.join(ROOT, "harness", "C[0-9][0-9].py"))):
+  claimed = sorted(json.load(open(os.path.join(ROOT, "tools", "claims.json"))))
+  for pid in claimed:
     try:
-      mod = importlib.import_module(os.path.basename(p)[:-3])
+      mod = importlib.import_module(pid)
       if hasattr(mod, "pregen"):
         mod.pregen(None)
       dirs.append(getattr(mod, "COQ_DIR", mod.PID))
